@@ -420,15 +420,17 @@ def _checker(res, expected_fn, label_prefix, argv_fn, witness_sink=None):
         ex.record_formula(label, pc, Not(post))
         mdl = ex.model(Not(post))
         if mdl is not None:
-            res.violations.append({'label': label, 'outputs': [list(o) for o in outs], 'replay': argv_fn(mdl)})
-            if len([v for v in res.violations if v['label'] == label]) > 40: res.violations.pop()
+            argv = argv_fn(mdl)
+            for rp in (argv if argv and isinstance(argv[0], list) else [argv]):
+                res.violations.append({'label': label, 'outputs': [list(o) for o in outs], 'replay': rp})
+                if len([v for v in res.violations if v['label'] == label]) > 40: res.violations.pop()
         elif witness_sink is not None and len(witness_sink) < 1 and len(outs) >= 2:
             mdl = ex.model()
             if mdl is not None: witness_sink.append({'executor_result': [list(o) for o in outs], 'replay': argv_fn(mdl)})
     return on_path
 
 
-def _argv_scenario(m, s, types, records_in_append_order, steps_after=None, cut=None, bad=None, abandoned=None, torn=None):
+def _argv_scenario(m, s, types, records_in_append_order, steps_after=None, cut=None, bad=None, abandoned=None, torn=None, bad_byte=None):
     """Scenario for the native replay: a list of steps.
     A<len>: append a record; K<bytes>: keep only the first <bytes> bytes of the file and reopen the writer; X<offset>: flip the byte at <offset>."""
     steps = []
@@ -443,6 +445,7 @@ def _argv_scenario(m, s, types, records_in_append_order, steps_after=None, cut=N
     if bad is not None:
         i = bad
         off = mval(m, s.pos[i]) + (HDR if mval(m, s.L[i]) > 0 else 0)
+        if bad_byte == 'type': off = mval(m, s.pos[i]) + 6        # the fragment type byte (altered to a value that is no fragment type)
         steps.append('X%d' % off)
     if cut is not None: steps.append('K%d' % mval(m, cut))
     return ['log_scenario'] + steps
@@ -503,7 +506,8 @@ def _reader_obligation(mir, tier, sub, title):
                             alts.append((which == bv(bi), [('rec', g) for g in keep] + [('eof',)]))
                         return alts
                     ex, fin = run_reader(mir, s, pre, len(groups) + 1, on_path=_checker(res, expected2, 'one fragment with a bad checksum: ',
-                                         lambda mdl, s=s, recs=recs, which=which: _argv_scenario(mdl, s, types, recs, bad=mval(mdl, which))))
+                                         lambda mdl, s=s, recs=recs, which=which: [_argv_scenario(mdl, s, types, recs, bad=mval(mdl, which)),
+                                                                                    _argv_scenario(mdl, s, types, recs, bad=mval(mdl, which), bad_byte='type')]))
                     res.absorb(ex); res.cases['bad m=%d' % m] = res.cases.get('bad m=%d' % m, 0) + len(fin); res.cases['t bad %s' % ','.join(types)] = round(ex.solver_s, 1)
             if aband is not None and sub == 'abandoned':
                 # ---- abandoned record prefix, then the records of a reopened writer
